@@ -37,6 +37,38 @@ CHECKS = {
    text="Exploration: VOLE for boundary vector lengths (1..2000 across extension chunks), nine moduli incl. 2 and 2^256-189, boundary elements and values >= p, CO and ideal base OT, two transports, several Mul calls per instance; bmr.Fx/Fxk exhaustively over (a,b) and label patterns with CO and COT. Oracle: u-r == x*y mod p per position; r xor x_b == a*b / b*s.",
    note="math/big is the specification; both parties in one process."),
 }
+
+CHECKS.update({
+ "C02": dict(level="exploration", sec="4/C02",
+   technique="runtime monitor: circuit.Garbler vs circuit.Evaluator over a fragmenting/delaying tap transport and p2p.Pipe, OT recorder at the API boundary, reference evaluator, stall detector",
+   text="Exploration: generated two-party circuits (1-bit, odd, unequal widths, 1-3 outputs), compiled fixtures and shipped test programs x {CO, COT, COT-malicious, RSA-1024} x transport fragmentation modes; all input pairs when they total <= 8 bits. Oracle: both parties finish without error with identical values equal to the reference evaluation split per declared output; a 30 s quiescent stall is a violation.",
+   note="Both parties are goroutines of one process; the harness closes a party's connection when it returns so a failed peer cannot block the other for ever."),
+ "C03": dict(level="exploration", sec="4/C03",
+   technique="runtime monitor: (1) every shipped @Test vector replayed exactly as testsuite_test.go does; (2) generated MPCL programs compiled and their circuits evaluated bit-sliced against a reference interpreter, with automatic statement-level minimisation of witnesses",
+   text="Exploration: all shipped vectors (203; the five sha512 programs are unavailable because their native circuit files are empty) plus 400 (quick) / 6000 (thorough) generated programs over the typed grammar of DESIGN 3.5 (about 99% compile), exhaustive inputs up to 10 bits else 48 boundary/random vectors; evidence lists the SSA opcodes and language features reached. Known finding: MPCL has no block scopes (an inner var of an existing name assigns the outer variable).",
+   note="The reference interpreter is the specification for the generated part; its grammar is restricted to constructs whose meaning the documentation and annotated programs fix, and (in this check) to operands that are not compile-time constants - folded constants are C12's subject."),
+ "C04": dict(level="exploration", sec="4/C04",
+   technique="offline checker over the recorded garbler->evaluator transcript: hash set of the 16-byte window at every byte offset, membership test for R and for w xor R; R taken at the ot.OT.Send boundary or by differential garbler runs",
+   text="Exploration: complete transcripts of whole-circuit sessions (4 OT kinds), streaming sessions and sha2pc round messages (1-14 MB per run in total); linear-time exact check of the statement's syntactic property with the witness mapped to its message field. Found and repaired a tweak-reuse leak in streaming mode; the sha2pc output-hint leak is a known finding.",
+   note="Syntactic transcript property as stated, not a simulation-based security argument; chance collisions need a 2^-128 event."),
+ "C05": dict(level="exploration", sec="4/C05",
+   technique="runtime monitor: Compiler.Stream vs circuit.StreamEvaluator over a tap, compared with the reference evaluation of the whole compiled circuit; verif hook counting 16-/32-bit wire-id encodings; witness minimisation",
+   text="Exploration: generated two-party programs with aliasing bias (shifts, casts, element/field updates, arrays and structs as arguments), unsized main signatures instantiated from exchanged input sizes, and a program that keeps more than 65535 wire ids live; OT in {CO, COT}. Oracle: both parties' values and output types equal the whole circuit's. The run fails as 'observed nothing' unless both wire-id encodings were seen.",
+   note="Relies on C03 for 'the whole circuit means the program'; inputs go through the textual interface as in apps/garbled."),
+ "C08": dict(level="exploration", sec="4/C08",
+   technique="runtime monitor: sha256 of Circuit.Marshal, of the SSA listing and of the I/O description compared across fresh instances, one reused instance with a history of other compilations, concurrent goroutines and separate OS processes",
+   text="Exploration: 70+ shipped programs and examples that import library packages, fixtures importing several packages with package-level constants/variables, and generated programs, under {default, prune, GMW, GMW+prune}; per program 6+3 in-process, 4 concurrent and 2 separate-process compilations (thorough 12/8/6). Go re-randomises map iteration per range statement and process, so an order dependence between two map elements survives N compilations with probability 2^-(N-1).",
+   note="Cannot vary the file system's directory order; slow programs get fewer repetitions (counted)."),
+ "C09": dict(level="exploration", sec="4/C09",
+   technique="differential runtime monitor: one program compiled under 14 option/target configurations, all circuits evaluated bit-sliced on the same vectors and compared with each other and with the reference interpreter",
+   text="Exploration: generated programs (multiplications across every threshold, divisions, constant operands, pass-through outputs) and shipped lang/math programs under {prune off/on} x {mult threshold 0,8,16,21,40,1000} x Yao and {prune off/on} x GMW; exhaustive inputs up to 10 bits else 32 vectors. A run must have seen structurally different circuits for the same program.",
+   note="Differential oracle for shipped programs, interpreter for generated ones; the GMW divider's known inexactness (C07) would appear here under key C09|GMW|program-with-division."),
+ "C12": dict(level="exploration", sec="4/C12",
+   technique="differential runtime monitor, fully enumerated: P_const (operator on typed constants) vs P_run (same operator on run-time inputs), folding confirmed from the SSA listings, circuits evaluated on the same values",
+   text="Exploration of a fixed, PRNG-free matrix: 19 operators x int/uint x 15 widths x all ordered pairs of a boundary list (5 values quick, 7 thorough) x consumers (as is, + x, / x, < x, shifted, cast wider/narrower): 35k (quick) / 118k (thorough) folded expressions. About 13% disagree with run-time evaluation on the unchanged tree; these are known findings keyed (operator, signedness, width class) - the enumeration is deterministic so the failing classes are reproducible, and any class not listed, and any compiler crash, still fails the check.",
+   note="Within a listed (operator, signedness, width class) a new wrong value cannot be told from the known ones; that is the price of recording this defect family instead of repairing it."),
+})
+
 PENDING = {}
 def main():
     props=[json.loads(l) for l in open('/verif/properties.jsonl')]
@@ -77,6 +109,6 @@ def main():
     }
     json.dump(m, open('/verif/MANIFEST.json','w'), indent=1)
     print("checks:", len(checks), "not claimed:", len(na))
-HOOK_COMMITS = []
+HOOK_COMMITS = ['945a966']
 if __name__ == "__main__":
     main()
